@@ -484,6 +484,34 @@ def run(tier='quick', seed=15, n=None, harness=None, driver=None):
         if not abs(m - d) <= 6.0 * math.sqrt(2.0 * d / nmc):
             findings['niw_draw_mean_scale'].append('%s -> mean of k·(μ−μ0)ᵀΣ⁻¹(μ−μ0) over %d draws = %r, expected %d ± %.3f (k = %r)'
                                                    % (l, nmc, m, d, 6.0 * math.sqrt(2.0 * d / nmc), kk))
+    # InvWishart::sample OVERRIDES the trait default: seed for seed it must equal n successive draws (exact), and its mean is Ψ/(ν−p−1)
+    wl, winfo = [], []
+    for d in (1, 2, 3, 4, 5, 6):
+        for rep in range(2):
+            scale, cs = spd(d, cond=10.0, scale=10 ** rng.uniform(-1, 1))
+            wl.append('iw.sample_vs_draws - %s %d %d %d' % (M(scale), d + rng.randrange(0, 7), rng.randrange(1 << 62), 6))
+            winfo.append(('exact', d, None, None))
+    nsm = 4000
+    for d in (1, 2, 3, 4):
+        scale, cs = spd(d, cond=10.0, scale=10 ** rng.uniform(-0.5, 1))
+        wl.append('iw.sample_mean - %s %d %d %d' % (M(scale), d + 10, rng.randrange(1 << 62), nsm))
+        winfo.append(('mean', d, scale, d + 10))
+    wo = pipe(H, wl)
+    for (kind, d, scale, df), a, l in zip(winfo, wo, wl):
+        if kind == 'exact':
+            if a != 'T':
+                findings['iw_sample_ne_draws'].append('%s -> %s' % (l, a))
+        else:
+            fl = floats(a)
+            bad = len(fl) != d * d
+            for i in range(d if not bad else 0):      # Var X_ii = 2 ψ_ii² / ((ν−p−1)² (ν−p−3))
+                want = scale[i][i] / (df - d - 1)
+                sd = math.sqrt(2.0 * scale[i][i] ** 2 / ((df - d - 1) ** 2 * (df - d - 3)) / nsm)
+                bad = bad or not abs(fl[i * d + i] - want) <= 6.0 * sd
+            if bad:
+                findings['iw_sample_mean'].append('%s -> diagonal of the mean of %d samples %r, expected %r (6σ)'
+                                                  % (l, nsm, [fl[i * d + i] for i in range(d)] if len(fl) == d * d else a,
+                                                     [scale[i][i] / (df - d - 1) for i in range(d)]))
     # implementation-only state checks: failing setters leave the object unchanged; Cholesky constructors report Σ; params round trip
     for (line, cond, mag, tag), a in zip(cases, oi):
         if not isinstance(tag, tuple):
@@ -633,7 +661,7 @@ def run(tier='quick', seed=15, n=None, harness=None, driver=None):
             'findings': {k: list(v) for k, v in findings.items()},
             'samples': ['%s -> %s' % (c[0][:160], a[:60]) for c, a in list(zip(cases, oi))[:4]],
             'worst': dict(worst), 'errors': dict(errs), 'accuracy': dict(acc),
-            'counts': {'corr': len(cases), 'draws': ndraw, 'probes': len(prop_lines) + len(second), 'statistical': len(sl) + len(hl)}}
+            'counts': {'corr': len(cases), 'draws': ndraw, 'probes': len(prop_lines) + len(second), 'statistical': len(sl) + len(hl) + len(wl)}}
 
 
 def main():
